@@ -460,14 +460,45 @@ class Interp:
         state[base] = m2
 
     # ------------------------------------------------------------ main
-    def run(self, name):
+    def run_loop_body(self, name):
+        """one symbolic iteration of every loop: header phis become fresh loop variables, back edges are
+        ignored.  Returns {'summary': Summary, 'loopvars': [...], 'stored': (loopvar, offset, value) | None}"""
+        S = self.run(name, loop_body=True)
+        out = {'summary': S, 'stored': None}
+        for e in S.exits:
+            if e.kind != 'backedge': continue
+            for base, m in e.mem.items():
+                a = m.arr
+                while a is not None and a.op == 'ite':
+                    a = a.args[1]
+                if a is not None and a.op == 'upd':
+                    off, v = a.args[1], a.args[2]
+                    lv = None
+                    stack = [off]; seen = set()
+                    while stack:
+                        x = stack.pop()
+                        if x.id in seen: continue
+                        seen.add(x.id)
+                        if x.op == 'loopvar': lv = x; break
+                        stack.extend(x.args)
+                    if lv is not None:
+                        out['stored'] = (lv, off, v)
+        return out
+
+    def run(self, name, loop_body=False):
         fn = self.funcs[name]
-        if fn.get('cyclic'):
+        if fn.get('cyclic') and not loop_body:
             raise Unsupported('function has a loop')
         S = Summary(fn)
         S.interp = self
         blocks = {b['id']: b for b in fn['blocks']}
         order = self.topo(fn)
+        pos = {b: i for i, b in enumerate(order)}
+        headers = set()
+        if loop_body:
+            for b in fn['blocks']:
+                if b['id'] in pos and any(p in pos and pos[p] >= pos[b['id']] for p in b['preds']):
+                    headers.add(b['id'])
         env = {}
         for i, a in enumerate(fn['args']):
             t = ty_norm(a['t'])
@@ -517,6 +548,16 @@ class Interp:
                         if all(m is not None and (m is first or m.same(first)) for m in mems):
                             st[base] = first
                             continue
+                        arrs = [m.arr if m is not None else None for m in mems]
+                        if all(a is not None and a.op == 'upd' and not m.cells for a, m in zip(arrs, mems)) and len(set((a.args[0].id, a.args[1].id, a.attr) for a in arrs)) == 1:
+                            # every predecessor stored to the same symbolic element: merge the stored values
+                            items = []
+                            for (_, (ps, s)), a in zip(inc, arrs):
+                                for p in ps: items.append((p, a.args[2]))
+                            nm = Mem(base, first.kind)
+                            nm.arr = T.mk('upd', arrs[0].attr, (arrs[0].args[0], arrs[0].args[1], build_tree(items)), 'mem')
+                            st[base] = nm
+                            continue
                         if any(m is not None and m.arr is not None for m in mems):
                             # array-level merge
                             items = []
@@ -555,7 +596,9 @@ class Interp:
                 ops = ins['ops']
                 if ins.get('fmf'):
                     raise Unsupported('fast-math flag present')
-                if op == 'phi':
+                if op == 'phi' and bid in headers:
+                    env[iid] = T.mk('loopvar', (bid, iid), (), ty)
+                elif op == 'phi':
                     items = []
                     for o, pb in ops:
                         if (pb, bid) not in edges: continue
@@ -644,8 +687,15 @@ class Interp:
                 elif op == 'insertvalue':
                     env[iid] = T.mk('insertvalue', tuple(ins['idxs']), (val(ops[0]), val(ops[1])), ty)
                 elif op == 'br':
+                    def backedge(dest, ps):
+                        if loop_body and dest in headers and pos[dest] <= pos[bid]:
+                            e = Exit(); e.paths = ps; e.kind = 'backedge'; e.ret = None; e.mem = state; e.exc = None; e.line = ins.get('line')
+                            S.exits.append(e)
+                            return True
+                        return False
                     if len(ops) == 1:
-                        edges[(bid, ops[0]['id'])] = (paths, state)
+                        if not backedge(ops[0]['id'], paths):
+                            edges[(bid, ops[0]['id'])] = (paths, state)
                     else:
                         c = val(ops[0])
                         # ops: cond, false-dest? LLVM operand order for br is (cond, false, true)
@@ -660,6 +710,8 @@ class Interp:
                             if len(ps) > MAX_PATHS:
                                 raise Unsupported('path explosion (%d)' % len(ps))
                             if ps:
+                                if backedge(dest, ps):
+                                    continue
                                 if (bid, dest) in edges:
                                     ps = edges[(bid, dest)][0] + ps
                                 edges[(bid, dest)] = (ps, state)
